@@ -152,6 +152,10 @@ def reasons_to_run(tr, t, before_files, stamped, _visiting=None):
     for d, (v, content) in m["deps"].items():
         if tr.ver.get(d, 0) != v or d in tr.last_failed_now:
             why.append("dependency %s changed" % d)
+        elif not tr.exists(d) and tr.rule_for(d) is None:
+            # a dependency that cannot be built (missing, no rule) failed when t's (tolerant) script asked
+            # for it; failures are retried (C05), so t is out of date until the dependency can be made
+            why.append("dependency %s is missing and has no rule (failed, retried)" % d)
         elif d in tr.memo and d not in stamped and d not in _visiting:
             # a plain target that is itself out of date makes its dependents out of date
             _visiting.add(d)
